@@ -22,6 +22,8 @@ type TCell struct {
 type TRow struct {
 	Sep   bool
 	Cells []TCell
+	// Literal: no cells, attached as the zero value &tabular.Row{}
+	Literal bool
 }
 
 type TGrid struct {
@@ -139,6 +141,8 @@ func (g *TGrid) Build(t tabular.Table) {
 	for _, r := range g.Rows {
 		if r.Sep {
 			t.AddSeparator()
+		} else if r.Literal {
+			t.AddRow(&tabular.Row{})
 		} else {
 			t.AddRowItems(items(r.Cells)...)
 		}
@@ -163,6 +167,8 @@ func (g *TGrid) String() string {
 	for _, r := range g.Rows {
 		if r.Sep {
 			sb.WriteString(" | SEP")
+		} else if r.Literal {
+			sb.WriteString(" | &Row{}")
 		} else {
 			fmt.Fprintf(&sb, " | %v", r.Cells)
 		}
@@ -183,7 +189,7 @@ func fromGrid(g *Grid) *TGrid {
 		tg.Header = append(tg.Header, TCell{Text: s})
 	}
 	for _, r := range g.Rows {
-		tr := TRow{Sep: r.Sep}
+		tr := TRow{Sep: r.Sep, Literal: r.Literal}
 		for _, s := range r.Cells {
 			tr.Cells = append(tr.Cells, TCell{Text: s})
 		}
